@@ -19,7 +19,8 @@ def build():
     u = _alloc.build()
     u.name = 'storage'
     u.prelude = u.prelude + [('prelude/shred_fetch.rs', 'private')]
-    u.spec = u.spec + ['storage/spec.rs']
+    # the history-level trace lemmas are checked in units alloc/world; the storage layer only needs the per-function contracts
+    u.spec = [x for x in u.spec if x != 'alloc/spec_trace.rs'] + ['storage/spec.rs']
     u.files = u.files + [S, 'src/storage/entry.rs', 'src/storage/generic.rs', 'src/storage/drain.rs']
     u.struct('src/storage/track.rs', ['enum ComponentEvent'], derive='Clone, Copy, PartialEq, Eq, Structural')
     u.struct(S, ['type InsertResult'])
@@ -85,6 +86,14 @@ def build():
                       E('map', 'r == (%s@.dom().contains(e.0) && live(self.entities, e))' % D, 'C04')])
         u.fn(S, [SIMPL, 'fn mask'], ret='r', props='C04 C06', impl_header=hdr, key='Storage(%s)::mask' % tag, rules=N8,
              ensures=[E('mask', 'r@ == %s.mask@' % D)])
+    for (hdr, tag) in [(HR, '&'), (HW, '&mut')]:
+        D = 'self.data' if tag == '&' else 'old(self.data)'
+        u.fn(S, [SIMPL, 'fn unprotected_storage'], ret='r', props='C04', impl_header=hdr, key='Storage(%s)::unprotected_storage' % tag, rules=N8,
+             ensures=[E('inner', '*r == %s.inner' % D)])
+        u.fn(S, [SIMPL, 'fn fetched_entities'], ret='r', props='C04', impl_header=hdr, key='Storage(%s)::fetched_entities' % tag, rules=N8,
+             ensures=[E('ents', 'r == self.entities')])
+    u.fn(S, [SIMPL, 'fn unprotected_storage_mut'], ret='r', props='C04', impl_header=HW, key='Storage(&mut)::unprotected_storage_mut', rules=N8,
+         ensures=[E('inner', '*r == old(self).data.inner'), E('final', 'final(self).data.inner == *final(r) && final(self).data.mask == old(self).data.mask && final(self).entities == old(self).entities')])
     u.fn(S, [SIMPL, 'fn get_mut'], ret='r', props='C03 C04 C12', impl_header=HW, key='Storage(&mut)::get_mut', rules=N8,
          requires=WR,
          ensures=[E('stale', '!live(old(self).entities, e) ==> r is None && final(self).data@ == old(self).data@ && final(self).data.log() == old(self).data.log()', 'C03'),
@@ -191,6 +200,48 @@ def build():
          rules=GRULES + [('N12', r'fn get_mut_or_default\(&mut self,', "fn get_mut_or_default<'a: 'b, 'b, 'x, T: Component + DefaultSpec>(self_: &'x mut &'b mut WriteStorage<'a, T>,"),
                          ('N12', r'\bself\b', 'self_'), ('N8', r"Option<&mut T>", "Option<&'x mut T>")],
          requires=[E('data_wf', 'old(self_).data.wf()'), E('ents', 'ent_ok(old(self_).entities)')], ensures=GMD_ENS('self_'))
+    # ---- restricted storages (src/storage/restrict.rs): paired items
+    RS = 'src/storage/restrict.rs'
+    u.struct(RS, ['struct PairedStorageRead'])
+    u.struct(RS, ['struct PairedStorageWriteExclusive'])
+    PR = "impl<'rf, C> PairedStorageRead<'rf, C>"
+    PW = "impl<'rf, C> PairedStorageWriteExclusive<'rf, C>"
+    C8 = [('N8', r"AccessMutReturn<'_, C>", '&mut C')]
+    # paired items exist only for indices the join took from the mask: mask/storage agree, own index is a member
+    def preq(s_, own=True):
+        r = [E('agree', 'forall|i: Index| #![trigger %s.bitset@.contains(i)] #![trigger %s.storage.has(i)] %s.bitset@.contains(i) <==> %s.storage.has(i)' % (s_, s_, s_, s_)),
+             E('ents', 'ent_ok(*%s.entities)' % s_)]
+        if own:
+            r.append(E('member', '%s.bitset@.contains(%s.index)' % (s_, s_)))
+        return r
+    u.fn(RS, [PR, 'fn get'], ret='r', props='C13', key='PairedStorageRead::get', requires=preq('self'),
+         ensures=[E('val', '*r == self.storage.val(self.index)')])
+    u.fn(RS, [PR, 'fn get_other'], ret='r', props='C03 C13', key='PairedStorageRead::get_other', requires=preq('self', False),
+         ensures=[E('stale', '!live(*self.entities, entity) ==> r is None', 'C03'),
+                  E('rule', 'r == (if self.bitset@.contains(entity.0) && live(*self.entities, entity) { Some(&self.storage.val(entity.0)) } else { None })', 'C13 C03')])
+    u.fn(RS, [PW, 'fn get'], ret='r', props='C13', key='PairedStorageWriteExclusive::get', rules=C8,
+         requires=[E('agree', 'forall|i: Index| #![trigger self.bitset@.contains(i)] #![trigger old(self.storage).has(i)] self.bitset@.contains(i) <==> old(self.storage).has(i)'), E('member', 'self.bitset@.contains(self.index)')],
+         ensures=[E('val', '*r == old(self.storage).val(self.index)')])
+    WREQ = [E('agree', 'forall|i: Index| #![trigger old(self).bitset@.contains(i)] #![trigger old(self).storage.has(i)] old(self).bitset@.contains(i) <==> old(self).storage.has(i)'),
+            E('ents', 'ent_ok(*old(self).entities)')]
+    WFRAME = lambda idx: [
+        E('has_same', 'forall|j: Index| #![trigger final(self).storage.has(j)] final(self).storage.has(j) == old(self).storage.has(j)', 'C13'),
+        E('index_same', 'final(self).index == old(self).index && final(self).bitset == old(self).bitset && final(self).entities == old(self).entities', 'C13')]
+    u.fn(RS, [PW, 'fn get_mut'], ret='r', props='C13 C12', key='PairedStorageWriteExclusive::get_mut', rules=C8,
+         requires=WREQ + [E('member', 'old(self).bitset@.contains(old(self).index)')],
+         ensures=[E('val', '*r == old(self).storage.val(old(self).index)'),
+                  E('only_own', 'final(self).storage.val(old(self).index) == *final(r) && forall|j: Index| #![trigger final(self).storage.val(j)] j != old(self).index ==> final(self).storage.val(j) == old(self).storage.val(j)', 'C13'),
+                  E('events', 'final(self).storage.log() == old(self).storage.log() + old(self).storage.ev_get_mut(old(self).index)', 'C12 C13')] + WFRAME('old(self).index'))
+    u.fn(RS, [PW, 'fn get_other'], ret='r', props='C03 C13', key='PairedStorageWriteExclusive::get_other', rules=C8,
+         requires=[E('agree', 'forall|i: Index| #![trigger self.bitset@.contains(i)] #![trigger old(self.storage).has(i)] self.bitset@.contains(i) <==> old(self.storage).has(i)'), E('ents', 'ent_ok(*self.entities)')],
+         ensures=[E('stale', '!live(*self.entities, entity) ==> r is None', 'C03'),
+                  E('rule', 'r == (if self.bitset@.contains(entity.0) && live(*self.entities, entity) { Some(&old(self.storage).val(entity.0)) } else { None })', 'C13 C03')])
+    u.fn(RS, [PW, 'fn get_other_mut'], ret='r', props='C03 C13 C12', key='PairedStorageWriteExclusive::get_other_mut', rules=C8,
+         requires=WREQ,
+         ensures=[E('stale', '!live(*old(self).entities, entity) ==> r is None && final(self).storage.log() == old(self).storage.log() && forall|j: Index| #![trigger final(self).storage.val(j)] final(self).storage.val(j) == old(self).storage.val(j)', 'C03 C13'),
+                  E('absent', '!old(self).bitset@.contains(entity.0) ==> r is None && final(self).storage.log() == old(self).storage.log() && forall|j: Index| #![trigger final(self).storage.val(j)] final(self).storage.val(j) == old(self).storage.val(j)', 'C13'),
+                  E('present', 'old(self).bitset@.contains(entity.0) && live(*old(self).entities, entity) ==> r is Some && *r.unwrap() == old(self).storage.val(entity.0) && final(self).storage.val(entity.0) == *final(r.unwrap()) && forall|j: Index| #![trigger final(self).storage.val(j)] j != entity.0 ==> final(self).storage.val(j) == old(self).storage.val(j)', 'C13'),
+                  E('events', 'old(self).bitset@.contains(entity.0) && live(*old(self).entities, entity) ==> final(self).storage.log() == old(self).storage.log() + old(self).storage.ev_get_mut(entity.0)', 'C12 C13')] + WFRAME(''))
     # ---- drain (src/storage/drain.rs)
     DR = 'src/storage/drain.rs'
     u.struct(DR, ['struct Drain'])
